@@ -1,5 +1,7 @@
 import WmModel.Props.C08
 import WmModel.Props.C08Tie
+import WmModel.Props.C08Router
+import WmModel.Props.C02Tie
 #print axioms Wm.Route.ctx_values
 #print axioms Wm.Route.ctx_get
 #print axioms Wm.Route.ctx5_addHandlerContext_idem
@@ -29,3 +31,8 @@ import WmModel.Props.C08Tie
 #print axioms Wm.RouteGo.extracted_ctx_law
 #print axioms Wm.RouteGo.extracted_ctx_simulates_model
 #print axioms Wm.RouteGo.extracted_ctx_describes_empty
+#print axioms Wm.Route.handleOne_settle_eq_handle
+#print axioms Wm.Route.handleOne_calls_eq_handle
+#print axioms Wm.Route.disabled_outputs_nack
+#print axioms Wm.GoHandle.handle_skeleton_eq_model
+#print axioms Wm.GoHandle.publish_skeleton_eq_model
